@@ -141,7 +141,7 @@ def judge(chk, rows, res, stats):
                 chk.note_drift({"c02_violation_seen": s["id"], "prog": s["prog"], "cfg": s["cfg"], "concrete": r.get("concrete")})
 
 
-BUILDER_SHAPES = [(135, 80, 2, "std"), (20, 12, 2, "narrow"), (60, 25, 5, "mid")]
+BUILDER_SHAPES = [(135, 80, 2, "std"), (20, 12, 2, "narrow"), (60, 25, 5, "mid"), (135, 80, 2, "nobase")]
 
 
 def builder_block(chk, thorough):
@@ -153,7 +153,13 @@ def builder_block(chk, thorough):
     if not rb.ok:
         raise ToolError("spec Builder violates %s" % rb.violated)
     chk.add_tlc("Builder: every sequence of <= %d builder calls followed by build, F_3" % (4 if thorough else 3), rb)
-    for can in ("slot_full_late", "identity_wrong_operand", "cache_ignores_consts", "one_const_cell_short"):
+    ecfg = "MCBuilder_ext" if thorough else "MCBuilder_extq"
+    re_ = common.tlc("MCBuilder", cfg=ecfg, workers=6, timeout=3000, heap="8g", tag="mcbuilderext")
+    if not re_.ok:
+        raise ToolError("spec Builder (extension arithmetic) violates %s" % re_.violated)
+    chk.add_tlc("Builder: every sequence of <= 3 calls of constant_extension / arithmetic_extension, then build, F_25", re_)
+    for can in ("slot_full_late", "identity_wrong_operand", "cache_ignores_consts", "one_const_cell_short",
+                "ext_identity_wrong_operand", "mul_gate_for_any_const_addend"):
         rc = common.tlc("MCBuilder", cfg="MCBuilder_canary_" + can, workers=2, timeout=600, tag="mcbcan" + can)
         chk.canary("Builder mutant %s violates Inv (TLC counterexample)" % can, rc.violated == "Inv")
     runs, ln = (120, 120) if thorough else (24, 70)
@@ -162,20 +168,21 @@ def builder_block(chk, thorough):
     for nw, nr, nc, tag in BUILDER_SHAPES:
         tp = os.path.join(common.OUT, "c01_builder_%s.ndjson" % tag)
         out = common.vh(["builder", "--out", tp, "--nw", str(nw), "--nr", str(nr), "--nc", str(nc), "--runs", str(runs),
-                         "--len", str(ln)], binname=BIN, env={"RAYON_NUM_THREADS": "3"}, timeout=3000)
+                         "--len", str(ln), "--nobase", "1" if tag == "nobase" else "0"], binname=BIN,
+                        env={"RAYON_NUM_THREADS": "3"}, timeout=3000)
         summ = out[-1]
         chk.evaluations += summ["sem_checked"]
         for x in out:
             if "builder_build_panic" in x:
                 chk.violation("C01/builder/build-panic/%s" % tag,
                               "build() panicked on a circuit assembled from add_virtual_target / constant / arithmetic / random_access / add_gate: %s" % x["builder_build_panic"][:300],
-                              {"builder_shape": [nw, nr, nc], "builder_budget": [runs, ln], "run": x["run"], "trace": tp,
+                              {"builder_shape": [nw, nr, nc], "builder_nobase": tag == "nobase", "builder_budget": [runs, ln], "run": x["run"], "trace": tp,
                            "expected": "build succeeds"})
         for b in summ["sem_bad"][:20]:
-            kind = "arith" if "arith" in b else "ra" if "ra" in b else "witness" if ("witness_error" in b or "witness_panic" in b) else "unsatisfied"
+            kind = "arithext" if "arithext" in b else "arith" if "arith" in b else "ra" if "ra" in b else "witness" if ("witness_error" in b or "witness_panic" in b) else "unsatisfied"
             chk.violation("C01/builder/meaning/%s/%s" % (tag, kind),
                           "a builder call's result does not have the value the call denotes under the library's own witness generation, or the generated assignment violates the circuit: %s" % json.dumps(b)[:400],
-                          {"builder_shape": [nw, nr, nc], "builder_budget": [runs, ln], "observed": b, "trace": tp,
+                          {"builder_shape": [nw, nr, nc], "builder_nobase": tag == "nobase", "builder_budget": [runs, ln], "observed": b, "trace": tp,
                            "expected": "value(result) = c0*x*y + c1*z (arithmetic) / list[index] (random_access); all gates and copies satisfied"})
         rt = common.tlc("BuilderTrace", cfg="BuilderTrace", workers=1, timeout=2400, env={"TRACE": tp}, tag="btrace" + tag)
         info = common.tagged(rt.prints, "BTRACE")
@@ -196,11 +203,13 @@ def builder_block(chk, thorough):
                             "event": {k: bad[k] for k in bad if k != "rows"}, "trace": tp})
         if first_trace is None:
             first_trace = tp
-    chk.extra["builder"] = {"shapes": [list(x[:3]) for x in BUILDER_SHAPES], "runs_per_shape": runs, "events": totals.get("n", 0),
+    chk.extra["builder"] = {"shapes": [list(x) for x in BUILDER_SHAPES],
+                            "paths_of_arithmetic_extension": {k[1:]: totals.get(k, 0) for k in ("efold", "eaddend", "em0", "em1", "ecache", "eslot", "emulslot")}, "runs_per_shape": runs, "events": totals.get("n", 0),
                             "paths_of_arithmetic": {k: totals.get(k, 0) for k in ("fold", "addend", "m0", "m1", "cache", "slot")},
                             "random_access_slots": totals.get("ra", 0), "builds": totals.get("builds", 0),
                             "builds_using_random_access_constant_cells": totals.get("ra_cells_used", 0)}
-    for k in ("fold", "addend", "m0", "m1", "cache", "slot", "ra", "builds", "ra_cells_used"):
+    for k in ("fold", "addend", "m0", "m1", "cache", "slot", "ra", "builds", "ra_cells_used",
+              "efold", "eaddend", "em0", "em1", "ecache", "eslot", "emulslot"):
         if totals.get(k, 0) == 0 and not chk.drift:
             raise ToolError("vacuity: builder traces never met %s" % k)
     # binding canaries: one corrupted recorded field must be rejected
@@ -356,7 +365,8 @@ def replay(path):
         os.environ["VERIF_SEED"] = str(p.get("seed", 1))
         tp = os.path.join(common.OUT, "c01_replay_builder.ndjson")
         out = common.vh(["builder", "--out", tp, "--nw", str(nw), "--nr", str(nr), "--nc", str(nc), "--runs", str(runs),
-                         "--len", str(ln)], binname=BIN, env={"RAYON_NUM_THREADS": "3"}, timeout=3000)
+                         "--len", str(ln), "--nobase", "1" if p.get("builder_nobase") else "0"], binname=BIN,
+                        env={"RAYON_NUM_THREADS": "3"}, timeout=3000)
         bad = [x for x in out if "builder_build_panic" in x] + out[-1]["sem_bad"]
         print("expected :", p.get("expected"))
         print("recorded :", json.dumps(p.get("observed", p.get("run")))[:600])
